@@ -11,8 +11,7 @@ import os, sys, json, time, math, subprocess, hashlib, re
 from fractions import Fraction
 from common import *
 import cert, sweep
-from cert import (E, Const, Op, Cx, ZERO, ONE, HALF, PI, lift, Instance, Structured, atoms_instance, rel_instance,
-                  mpf_fraction)
+from cert import E, Const, Op, Cx, ZERO, ONE, HALF, PI, lift, Instance, Structured, mpf_fraction
 from props.engineb import dyadic, mk_mpf, value_of, short, run_and_report, finite_tuple, _cmd_string
 
 KNOWN_B3 = os.path.join(VERIF, "known_findings_B3.json")
@@ -257,6 +256,83 @@ def HC(v):
     if v.numerator.bit_length() + v.denominator.bit_length() > 600:
         return HConst(v)
     return Const(v)
+
+
+# ============================================================================================ integral-aware Structured
+
+class Structured2(Structured):
+    """cert.Structured with one change in the proof script: every RInt node is enclosed by `integral_intro` with an ABSOLUTE
+    width target `i_width (m - w)` (m = untrusted estimate of log2 |integral|, w = the wanted relative accuracy in bits) instead
+    of `i_relwidth w`: measured on Interval 4.6, the i_relwidth target is not relative to the value of the integral when that
+    value is small (RInt exp(-t) 27 35 with i_relwidth 62 returns a 2^-29 enclosure), i_width is honoured.  Only tactic
+    parameters change: the statement and what `Qed` checks are the same."""
+
+    def script(self, prec, final=None):
+        final = final or ("interval with (i_prec %d)" % prec)
+        L = []
+        if self.shared:
+            L.append("intros %s." % " ".join(self.names[id(n)] for n in self.shared))
+        for i, n in enumerate(self.shared):
+            v = self.names[id(n)]
+            if isinstance(n, Const):
+                lo, hi = cert._round_dir(n.v, prec, -1), cert._round_dir(n.v, prec, +1)
+                L.append("assert (H%d : %s <= %s <= %s) by (unfold %s; split; [apply Ropp_le_cancel|]; interval with (i_prec %d))."
+                         % (i + 1, Const(lo).coq(), v, Const(hi).coq(), v, prec + 8))
+            elif n.op == "rint":
+                rw = max(8, prec - 20)
+                target = "i_relwidth %d" % rw
+                try:
+                    val = cert.approx(n, 64)
+                    if val != 0:
+                        target = "i_width (%d)" % (int(cert._ctx().mag(val)) - 1 - rw)
+                except Exception:
+                    pass
+                L.append("integral_intro %s with (i_prec %d, i_fuel %d, i_degree %d, %s) as H%d; fold %s in H%d."
+                         % (self._body(n), prec, self.rint_opts.get("i_fuel", 200), self.rint_opts.get("i_degree", 12),
+                            target, i + 1, v, i + 1))
+            else:
+                L.append("interval_intro %s with (i_prec %d) as H%d; fold %s in H%d." % (self._body(n), prec, i + 1, v, i + 1))
+            L.append("clearbody %s." % v)
+        L.append("repeat apply conj; %s." % final)
+        return " ".join(L)
+
+
+def atoms_instance(id, atoms, neg_atom_lists=(), params=None, meta=None, trivial=False, kind=None):
+    """cert.atoms_instance with Structured2 (same statements, better integral tactic parameters)"""
+    P = dict(cert.DEFAULT_PARAMS); P.update(params or {})
+    meta = dict(meta or {})
+    g = Structured2(atoms, P["big_const_bits"])
+    negs = [Structured2(a, P["big_const_bits"]) for a in neg_atom_lists]
+    hint = None
+    prec = 128
+    try:
+        prec, vals = cert.plan_prec([d for d, _ in g.atoms], P["margin"], P["min_prec"], P["max_prec"])
+        ok = all((v <= 0 if op == "<=" else v < 0) for v, (_, op) in zip(vals, g.atoms))
+        hint = "pass" if ok else "fail"
+        if not ok and negs:
+            p2, _ = cert.plan_prec([d for d, _ in negs[0].atoms], P["margin"], P["min_prec"], P["max_prec"])
+            prec = max(prec, p2)
+        meta["est_prec"] = prec
+    except cert.EstimateError as ex:
+        meta["estimate_error"] = str(ex)
+    if kind is None:
+        kind = "RI" if g.has_rint else "R"
+    for st in [g] + negs:
+        st.rint_opts = {k: P[k] for k in ("i_fuel", "i_degree") if k in P}
+    return Instance(id, g, negs, kind=kind, prec=prec, hint=hint, meta=meta, trivial=trivial)
+
+
+def rel_instance(id, y, ref, eps, scale=None, conds=(), params=None, meta=None, other_scales=()):
+    """cert.rel_instance on top of the atoms_instance above (constant references still go to cert.rel_instance)"""
+    yy = lift(y); rr = lift(ref); ee = lift(eps)
+    sc = rr if scale is None else lift(scale)
+    scales = [sc] + [lift(t) for t in other_scales]
+    if rr.is_const() and all(t.is_const() for t in scales) and not conds:
+        return cert.rel_instance(id, y, ref, eps, scale=scale, conds=conds, params=params, meta=meta, other_scales=other_scales)
+    err = cert.rabs(yy - rr)
+    atoms = [tuple(c) for c in conds] + [(err, "<=", ee * cert.rabs(sc))]
+    negs = [[tuple(c) for c in conds] + [(ee * cert.rabs(t), "<", err) for t in scales]]
+    return atoms_instance(id, atoms, negs, params=params, meta=dict(meta or {}))
 
 
 # ============================================================================================ real / complex instances
@@ -563,6 +639,36 @@ def generate(kinds, rng, tier_, n_calls, precs, params=None):
     return insts, calls, direct, stats
 
 
+def _is_integral(ins):
+    return ins.kind == "RI" or getattr(ins._goal, "has_rint", False)
+
+
+def _two_phase(orig):
+    """certify the cheap instances (rational / elementary) first with their own share of the budget, then the integral ones:
+    otherwise a cheap lemma queued behind a slow integral lemma of the same batch file is lost when the budget expires"""
+    def certify(instances, tactic_params=None, jobs=16, timeout=None, tag="misc", clean=True):
+        cheap = [i for i in instances if not _is_integral(i)]
+        heavy = [i for i in instances if _is_integral(i)]
+        if not cheap or not heavy:
+            return orig(instances, tactic_params=tactic_params, jobs=jobs, timeout=timeout, tag=tag, clean=clean)
+        t0 = time.time()
+        share = len(cheap) / float(len(cheap) + 4 * len(heavy))
+        ra = orig(cheap, tactic_params=tactic_params, jobs=jobs, timeout=(max(20, timeout * max(0.2, share)) if timeout else None),
+                  tag=tag + "_a", clean=clean)
+        rem = (timeout - (time.time() - t0)) if timeout else None
+        rb = orig(heavy, tactic_params=tactic_params, jobs=jobs, timeout=(max(20, rem) if timeout else None), tag=tag, clean=clean)
+        for v in ra["verdicts"].values():
+            if v.get("file"):
+                v["file"] = os.path.join("..", os.path.basename(ra["dir"]), v["file"])
+        rb["verdicts"].update(ra["verdicts"])
+        rb["cmds"] = ra["cmds"] + rb["cmds"]
+        for k in rb["counts"]:
+            rb["counts"][k] += ra["counts"][k]
+        rb["wall_s"] = round(time.time() - t0, 2)
+        return rb
+    return certify
+
+
 def run_kinds(rep, kinds, tier_, rng, n_quick, n_thorough, precs_quick, precs_thorough, assumptions, rule, not_decided,
               params=None, budget_quick=110, budget_thorough=1080, jobs=None):
     """the whole run() of a C18-C23 module"""
@@ -590,9 +696,14 @@ def run_kinds(rep, kinds, tier_, rng, n_quick, n_thorough, precs_quick, precs_th
         pr[c["prec"]] = pr.get(c["prec"], 0) + 1
     if not insts:
         insts = [Instance("noop", "(0 =? 0) = true", [], kind="Z", hint="pass", trivial=True, meta={"fn": "none"})]
-    res = run_and_report(rep, insts, calls, tag="%s_%s" % (rep.pid, tier_), params=P, budget=max(30, budget),
-                         jobs=jobs or NPROC, rule=rule, assumptions=list(assumptions) + ["NOT DECIDED by this check: " + s for s in not_decided],
-                         extra_cov={})
+    orig = cert.certify
+    cert.certify = _two_phase(orig)
+    try:
+        res = run_and_report(rep, insts, calls, tag="%s_%s" % (rep.pid, tier_), params=P, budget=max(30, budget),
+                             jobs=jobs or NPROC, rule=rule, assumptions=list(assumptions) + ["NOT DECIDED by this check: " + s for s in not_decided],
+                             extra_cov={})
+    finally:
+        cert.certify = orig
     finish_coverage(rep, res, insts, kinds, hit, pr, stats, direct, tgen, tier_)
     return res
 
